@@ -1,13 +1,15 @@
-// ---- A-normalise: the normalisation prologue of SATSolver::new, as a stub stating what it computes ----
-// real text: every clause is cloned, sorted and deduplicated (`map` / `collect`); a `filter` closure with two nested loops drops every
-// clause that contains a literal together with its negation; every remaining literal gets the next prime of `primal::Primes::all()`.
-// The stub returns SOME weighted clause list that is, literal set by literal set, the formula's non-tautological clauses (wnorm_rel),
-// over the formula's variables.  Nothing is said about the weights (they feed the residual hash only).
+// ---- A-primes / A-std-sort-dedup / A-clone (Cnf): what SATSolver::new calls that is outside Verus ----
+/// `primal::Primes::all()` (external prime sieve): an opaque source of numbers; nothing is assumed about them (they feed the hash only)
 #[verifier::external_body]
-pub fn verif_weighted_clauses(cnf: &Cnf) -> (r: Vec<Vec<(Literal, u128)>>)
-    ensures
-        wnorm_rel(r@, cnf.clauses@),
-        forall|i: int, j: int| 0 <= i < r@.len() && 0 <= j < r@[i]@.len() ==> (#[trigger] r@[i]@[j]).0.lbl.0 < cnf.num_vars,
+pub struct Primes { _p: u8 }
+#[verifier::external_body]
+pub fn verif_primes_all() -> (r: Primes) { unimplemented!() }
+#[verifier::external_body]
+pub fn verif_next_prime(p: &mut Primes) -> (r: u128) { unimplemented!() }
+/// `c.sort()` on a vector of literals (the derived Ord of the packed literal): the same set of literals
+#[verifier::external_body]
+pub fn verif_sort_full(v: &mut Vec<Literal>)
+    ensures same_lits(final(v)@, old(v)@),
 { unimplemented!() }
 // A-clone (Cnf): the derived Clone of Cnf returns an equal value
 impl Clone for Cnf {
